@@ -9,6 +9,7 @@ import subprocess
 from vlib import Inconclusive, log
 
 OPS = ["FIN", "FIN2", "REQ0", "TOUCH", "SCAN", "DELIVER", "EMPTY"]
+EXIT_PARTNERS = ["FIN", "REQ0", "TOUCH", "SCAN", "DELIVER", "EMPTY"]   # pairs (X, EXIT): graceful shutdown at every point of X
 SAME_GOROUTINE = {"FIN", "REQ0", "TOUCH"}          # all issued by connection k1: its IOLoop serialises them
 
 # which property a bad outcome of a pair speaks for
@@ -20,8 +21,12 @@ def classes(opA, opB, kind):
         return {"C03", "C13", "C08"} if admin else {"C03", "C13"}
     if kind == "nodeadline":
         return {"C01", "C08"} if admin else {"C01", "C02"}
+    if kind == "lost":
+        return {"C05"}
+    if kind == "resurrected":
+        return {"C05"}
     if kind == "blocked":
-        return {"C08"}
+        return {"C08", "C05"} if "EXIT" in (opA, opB) else {"C08"}
     return {"C02"}
 
 
@@ -40,7 +45,7 @@ def enumerate_schedules(ctx, pairs):
     for a, b in pairs:
         cfg = "NsqdCore_%s_%s.cfg" % (a, b)
         with open(os.path.join(ctx.specdir, cfg), "w") as f:
-            f.write('SPECIFICATION Spec\nCONSTANTS\n  OpA = "%s"\n  OpB = "%s"\n  Guarded = TRUE\n  PerMessage = TRUE\nCONSTRAINT Emit\nCHECK_DEADLOCK FALSE\n' % (a, b))
+            f.write('SPECIFICATION Spec\nCONSTANTS\n  OpA = "%s"\n  OpB = "%s"\n  Guarded = TRUE\n  PerMessage = TRUE\n  ExitGuard = TRUE\nCONSTRAINT Emit\nCHECK_DEADLOCK FALSE\n' % (a, b))
         r = ctx.tlc("NsqdCore", cfg, workers=1, timeout=300, label="pairs %s|%s" % (a, b))
         if r.crashed:
             raise Inconclusive("NsqdCore failed for %s|%s:\n%s" % (a, b, r.out[-2000:]))
@@ -49,13 +54,15 @@ def enumerate_schedules(ctx, pairs):
         n = 0
         for t in r.prints("SCHED"):
             v = [x.strip('"') for x in t]
-            # opA opB sched... crashed nifm nq cnt1 cnt2 nheap fin
-            tail = v[-7:]
-            sched = v[2:-7]
+            # opA opB sched... crashed nifm nq cnt1 cnt2 nheap fin disk1 disk2
+            tail = v[-9:]
+            sched = v[2:-9]
+            n += 1
+            if b == "EXIT" and (sched[0] != "A" or a in ("FIN", "REQ0", "TOUCH") and False):
+                continue      # the shutdown closes the client connections first: X must have started before it
             cases.append({"opA": v[0], "opB": v[1], "sched": sched, "crashed": tail[0] == "TRUE", "nifm": int(tail[1]),
                           "nq": int(tail[2]), "cnt1": int(tail[3]), "cnt2": int(tail[4]), "nheap": int(tail[5]),
-                          "fin_m1": tail[6] == "TRUE"})
-            n += 1
+                          "fin_m1": tail[6] == "TRUE", "disk_m1": tail[7] == "TRUE", "disk_m2": tail[8] == "TRUE"})
         if n == 0:
             raise Inconclusive("no schedule printed for %s|%s" % (a, b))
     return cases
@@ -124,6 +131,7 @@ def judge(ctx, prop, obs):
     """Property verdicts from the REAL outcomes; disagreement with TLC's prediction that breaks no predicate is drift."""
     n_viol = 0
     kinds = {}
+    ndrift0 = len(ctx.notes.get("shape_drift", []))
     for o in obs:
         c = o["case"]
         pair = "%s|%s" % (c["opA"], c["opB"])
@@ -135,6 +143,17 @@ def judge(ctx, prop, obs):
         if o["real_crashed"]:
             bad.append(("crash", "the daemon panicked: " + o["traceback"].strip().splitlines()[0][:200] + " ... " +
                         " | ".join(l.strip() for l in o["traceback"].splitlines() if "nsqd/" in l)[:400]))
+        elif "EXIT" in (c["opA"], c["opB"]):
+            if o.get("blocked"):
+                bad.append(("blocked", o["blocked"]))
+            elif o.get("restarted"):
+                # C05: acknowledged and not finished when shutdown was requested => delivered again after restart
+                if "EMPTY" in (c["opA"], c["opB"]):
+                    pass          # an Empty in progress may legitimately discard either message
+                elif not o["fin_m1"] and not o["back_m1"]:
+                    bad.append(("lost", "m1 (in flight to k1, not finished) did not come back after graceful shutdown + restart"))
+                if not o["back_m2"] and "EMPTY" not in (c["opA"], c["opB"]):
+                    bad.append(("lost", "m2 (queued, never finished) did not come back after graceful shutdown + restart"))
         else:
             if o.get("blocked"):
                 bad.append(("blocked", o["blocked"]))
@@ -158,6 +177,12 @@ def judge(ctx, prop, obs):
             pred_bad = c["crashed"]
             if o["real_crashed"] != pred_bad:
                 ctx.drift("pair %s schedule %s: NsqdCore predicts crashed=%s, real daemon crashed=%s" % (pair, sched, pred_bad, o["real_crashed"]))
+            elif not o["real_crashed"] and not o.get("blocked") and "EXIT" in (c["opA"], c["opB"]):
+                if o.get("restarted"):
+                    real = (o["fin_m1"], o["back_m1"], o["back_m2"])
+                    pred = (c["fin_m1"], c["disk_m1"], c["disk_m2"])
+                    if real != pred:
+                        ctx.drift("pair %s schedule %s: NsqdCore predicts (fin m1, m1 back, m2 back)=%s, real daemon %s" % (pair, sched, pred, real))
             elif not o["real_crashed"] and not o.get("blocked"):
                 real = (o["nifm"], o["nq"], o["cnt1"], o["cnt2"], o["nheap"], o["fin_m1"])
                 pred = (c["nifm"], c["nq"], c["cnt1"], c["cnt2"], c["nheap"], c["fin_m1"])
@@ -168,6 +193,9 @@ def judge(ctx, prop, obs):
                     pred = (c["nifm"] + c["nq"], c["cnt1"], c["fin_m1"])
                 if real != pred:
                     ctx.drift("pair %s schedule %s: NsqdCore predicts (ifm,q,cnt1,cnt2,heap,fin)=%s, real daemon %s" % (pair, sched, pred, real))
+    # a forced schedule whose real outcome equals NsqdCore's prediction is a TLC behaviour validated on the code
+    matched = len([o for o in obs if not o.get("inconclusive")]) - (len(ctx.notes.get("shape_drift", [])) - ndrift0)
+    ctx.cov["traces_validated_against_impl"] += max(0, matched)
     ctx.notes["pair_outcomes"] = {"%s:%s" % k: v for k, v in kinds.items()}
     return n_viol
 
